@@ -35,7 +35,6 @@ pub fn vec_find_cloned<F: Fn(&Handle) -> bool>(v: &Vec<Handle>, f: F) -> (r: Opt
 pub uninterp spec fn w_is_type_hidden(tag: Tag) -> bool;
 pub uninterp spec fn w_noah(l: Seq<FormatEntry>, tag: Tag) -> Seq<FormatEntry>;
 pub uninterp spec fn w_clear_to_marker(l: Seq<FormatEntry>) -> Seq<FormatEntry>;
-pub uninterp spec fn w_enter_foreign(tb: TreeBuilder, tag: Tag, ns: Namespace) -> (TreeBuilder, ProcessResult);
 /// rule R36/R37: `self.active_formatting_end_to_marker().iter().find(|&(_, n, _)| self.html_elem_named(n, NAME)).map(|(_, n, _)| n.clone())`:
 /// from the end of the list down to (not including) the last marker, the first entry whose element is an HTML element of that name
 pub open spec fn fmt_elem_for(l: Seq<FormatEntry>, name: LocalName, n: int) -> Option<int>
@@ -145,11 +144,6 @@ impl TreeBuilder {
     pub fn clear_active_formatting_to_marker(&mut self)
         ensures final(self).same_but_stack_list(old(self)), final(self).stack() == old(self).stack(), final(self).sink == old(self).sink,
                 final(self).list() == w_clear_to_marker(old(self).list()),
-    { unimplemented!() }
-    /// enter_foreign (ASSUMED: an uninterpreted state transformer: adjust attributes, insert a foreign element)
-    #[verifier::external_body]
-    pub fn enter_foreign(&mut self, tag: Tag, ns: Namespace) -> (r: ProcessResult)
-        ensures (*final(self), r) == w_enter_foreign(*old(self), tag, ns),
     { unimplemented!() }
 }
 /// what the "in body" rules need of the tree builder's state (ASSUMED at entry: an invariant of the tree builder)
